@@ -34,6 +34,7 @@ package base
 
 //@ func (*ti/base.T).GetType
 //@   safe
+//@   transparent
 //@   ensures[C09] t != nil ==> result == t.tType
 //@   ensures[C09] t == nil ==> result == NIL
 
@@ -244,6 +245,7 @@ package base
 
 //@ func ti/base.MakeAnyArray
 //@   safe
+//@   transparent
 //@   ensures[C09] fresh(result) && result.tType == ARRAY && len(result.variants) == 0
 
 //@ func ti/base.MakeAnyFloat
@@ -344,6 +346,7 @@ package base
 
 //@ func ti/base.MakeNil
 //@   safe
+//@   transparent
 //@   ensures[C09] fresh(result) && result.tType == NIL
 
 //@ func ti/base.MakeObject
@@ -384,6 +387,7 @@ package base
 
 //@ func ti/base.MakeUnion
 //@   safe
+//@   transparent
 //@   ensures[C09] fresh(result) && result.tType == UNION
 
 //@ func ti/base.MakeUnknown
@@ -391,10 +395,12 @@ package base
 
 //@ func ti/base.MakeUntyped
 //@   safe
+//@   transparent
 //@   ensures[C09] fresh(result) && result.tType == UNTYPED
 
 //@ func ti/base.NewT
 //@   safe
+//@   transparent
 //@   # C09: the type factories hand out objects nobody else holds, of the requested kind
 //@   ensures[C09] fresh(result) && result.tType == types && result.objectClass == objectClass && len(result.variants) == 0
 
@@ -504,4 +510,12 @@ package base
 
 // C09: growing a type's variant list leaves its kind alone
 //@ func (*ti/base.T).AppendArrayVariant
+//@   transparent
 //@   ensures[C09] whole(t) ==> t.tType == old(t.tType)
+
+// C12: a deep copy is a new object of the same kind
+//@ func (*ti/base.T).DeepCopy
+//@   ensures[C12,C09] t == nil ==> result == nil
+//@   ensures[C12,C09] t != nil ==> fresh(result) && result.tType == old(t.tType)
+//@   loop 0 invariant[C12,C09] fresh(result) && result.tType == old(t.tType)
+//@   loop 1 invariant[C12,C09] fresh(result) && result.tType == old(t.tType)
